@@ -56,6 +56,15 @@ CHECKS = {
     "C16": ("exploration", "stateful property-based testing (Hypothesis rule-based state machine, reference model of the pending buffer)",
             "Generated sends with mixed lifetimes and clock advances (exact expiry instants included) on a socket whose link is down, closed or never opened, then a connection; overflow / not-open errors and the frames that appear on connection must match a list model of unexpired entries.",
             "now == accept + lifetime counts as expired; " + TRUST),
+    "C17": ("exploration", "enumeration of unknown ids + property-based structured mutation (differential against independent receive model and readers)",
+            "All 256 type bytes and all 0xC0 sub-types (exhaustive) plus generated 0x1F sub-ids with generated payloads must be delivered as one UnsupportedMessage with id and payload unchanged on an undisturbed connection; generated valid console frames are mutated (re-checksummed flips/inserts/deletes, raw damage, truncation + EOF, splices, random bytes) and fed to a live socket: deliveries must be exactly what the independent receive model accepts, every delivered status message must equal the independent reading (undefined codes never delivered, defined frames never dropped), the receive task must not die, and intact probe frames must be delivered afterwards.",
+            "payloads without a documented reading may be delivered or rejected; desynchronised streams are dropped by the simulated console before probing; " + TRUST),
+    "C18": ("exploration", "property-based testing over a fake UDP endpoint on a virtual clock (independent grammar parser + timeline model)",
+            "Generated datagram sets (grammar-valid responses with commas in the last field and arbitrary UTF-8, mutated, echoed requests, the other generation's responses, random bytes) with generated arrival times drive AirTouchDiscoverer.search() per generation, pyairtouch.discover() and unicast mode; request bytes, destination, the instants 0 / 0.5 / 1.0 s, the return instant, endpoint closure, the returned set (exact fields, duplicates collapsed) and the model/host/port of the returned clients are compared with an independent parser of the vendor format and a timeline model; match()/decode() are fuzzed for totality.",
+            "datagrams never arrive exactly on a request instant; fake datagram transport mirrors _SelectorDatagramTransport (exceptions from datagram_received go to the loop handler, endpoint stays open); " + TRUST),
+    "C19": ("exploration", "differential property-based testing (AT4 client vs AT5 client in lock-step, plus reference model on each side)",
+            "Generated installations expressible in both protocols and lock-step histories of status pushes and public calls (including arguments outside the common ability) drive an AT4 and an AT5 client against equivalent simulated consoles; after every step every commonly supported getter must be equal, each call must be accepted or rejected on both, and the independent semantic readings of the two emitted frames must be equal modulo the documented differences; each side is also judged against the reference model.",
+            "documented differences (resolution, away/sleep, bypass, per-mode limits) excluded; integer temperatures; AT4 timer-control records of other ACs not compared; " + TRUST),
 }
 
 NOT_APPLICABLE = {}
